@@ -439,6 +439,8 @@ def check_case(ctx, case):
                 probs.append(('disagree', 'model-exception', r['exc']))
             elif 'obs' in r:
                 m = decode_obs(r['obs'])
+                if isinstance(q, Q):
+                    m.mag = dict(q.mag)     # scale of what was added up (contributions may cancel to rounding noise)
                 d2 = compare_q(res, m) if isinstance(res, pe.Obs) else ['impl returned a number']
                 if isinstance(res, pe.Obs):
                     for n, isr in m.is_range.items():
